@@ -253,7 +253,7 @@ func c14LendUnsafeBorrow(e *c08Env, env *c14Env, on, off func(), round int) {
 	who := c.Accts[(round+2)%len(c.Accts)]
 	gen2 := &liqV2types.MsgLiquidateInternalKeeperRequest{From: who.Addr.String(), LiqType: 1, Id: b.ID}
 	gen1 := &liqtypes.MsgLiquidateBorrowRequest{From: who.Addr.String(), BorrowId: b.ID}
-	seizedOn := func(ctxDesc string, st *c08Snap) bool {
+	seizedOn := func(st *c08Snap) bool {
 		x, ok := st.borrows[b.ID]
 		return ok && x.IsLiquidated
 	}
@@ -344,11 +344,11 @@ func c14LendUnsafeBorrow(e *c08Env, env *c14Env, on, off func(), round int) {
 		rec.Eval(1)
 		rec.Count("lend_price_sweep_cells_checked", 1)
 		rec.Count("price_cells_checked", 1)
-		if !seizedOn("", pre) && seizedOn("", post) {
+		if !seizedOn(pre) && seizedOn(post) {
 			rec.Violate("C14/price/lend/sweep/borrow-seized-with-inactive-"+side.role+"-feed", "the sweep seized a borrow although a price the seizure needs is inactive", w(map[string]interface{}{"inactive_feed": e.u.Assets[side.asset].Denom}))
 		}
 		e.u.SetPrice(side.asset, px, true)
-		if seizedOn("", post) {
+		if seizedOn(post) {
 			restore()
 			return
 		}
@@ -368,13 +368,13 @@ func c14LendUnsafeBorrow(e *c08Env, env *c14Env, on, off func(), round int) {
 		rec.Count("refusals_checked", 1)
 		rec.Count("lend_breaker_liquidate_cells_checked", 1)
 		switch {
-		case seizedOn("", st):
+		case seizedOn(st):
 			rec.Violate("C14/breaker/lend/liquidate-message-"+g.tag+"/seized-under-breaker", "a liquidate message seized a borrow of an app whose circuit breaker is on", w(map[string]interface{}{"tx_ok": res.OK(), "log": trunc(res.Log)}))
 		case !res.OK() && all0 != all1:
 			rec.Violate("C14/breaker/lend/liquidate-message-"+g.tag+"/refused-but-state-changed", "the refused liquidation changed state", w(map[string]interface{}{"stores_changed": inject.DiffStores(per0, per1), "log": trunc(res.Log)}))
 		}
 		rec.Distinct("C14-lend-breaker-liq", g.tag, res.OK())
-		if seizedOn("", st) {
+		if seizedOn(st) {
 			off()
 			restore()
 			return
@@ -397,7 +397,7 @@ func c14LendUnsafeBorrow(e *c08Env, env *c14Env, on, off func(), round int) {
 	off()
 	c.NextBlock(6 * time.Second)
 	after := e.snap()
-	if seizedOn("", after) && !seizedOn("", mid) {
+	if seizedOn(after) && !seizedOn(mid) {
 		rec.Count("sweep_cells_checked", 1) // the state really contained work that was refused
 		rec.Count("lend_sweep_cells_live", 1)
 	} else {
